@@ -457,6 +457,60 @@ m("defer-sub-roles-swapped-harmless-twin", ["C03"], "silent", TC,
 m("lua-eq-remembers-last-pair", ["C19"], ["EQ|__TUPLE_META|__eq|function-of-its-operands"], PRE,
   "__TUPLE_META.__eq = function(a, b)\n", "__TUPLE_META.__eq = function(a, b)\n    __LAST_COMPARED = a\n")
 
+# ---- round 8
+SET = "std/set.sy"
+m("bracket-index-no-newline-mode-2", ["C14"], ["BRACKET-MODE|assignable_index|LeftBracket", "NEWLINE-MODE"], PPA,
+  "    let (mut ctx, skip_newlines) = ctx.push_skip_newlines(true);\n\n    let (_ctx, mut expr) = expression(ctx)?;", "    let (mut ctx, skip_newlines) = ctx.push_skip_newlines(ctx.skip_newlines);\n\n    let (_ctx, mut expr) = expression(ctx)?;")
+m("index-parentheses-stripped-once", ["C14"], ["PARENS|parser|sylt_parser::assignable_index|form-test#1"], PPA,
+  "    while let ExpressionKind::Parenthesis(inner) = expr.kind {\n        expr = *inner;\n    }\n    if matches!(expr.kind, ExpressionKind::Int(_)) {",
+  "    if matches!(expr.kind, ExpressionKind::Int(_)) {")
+m("decl-order-blob-sees-itself", ["C01", "C09"], ["DECL-ORDER|Resolver::statement|Definition|function-first"], NR,
+  "                    without_parenthesis(value).kind,\n                    sylt_parser::ExpressionKind::Function { .. }\n                ) {\n                    // Function, push the var before!",
+  "                    without_parenthesis(value).kind,\n                    sylt_parser::ExpressionKind::Function { .. } | sylt_parser::ExpressionKind::Blob { .. }\n                ) {\n                    // Function, push the var before!")
+m("diverges-if-without-else", ["C02"], ["VALUE-PATH|diverges|expression|If"], TC,
+  "                branches.last().map(|b| b.condition.is_none()).unwrap_or(false)\n                    && branches.iter().all(|b| diverges(&b.body))",
+  "                branches.iter().all(|b| diverges(&b.body))")
+m("diverges-case-else-ignored", ["C02"], ["VALUE-PATH|diverges|expression|Case"], TC,
+  "                branches.iter().all(|b| diverges(&b.body))\n                    && fall_through.as_ref().map(|f| diverges(f)).unwrap_or(true)\n            }\n            _ => false,",
+  "                branches.iter().all(|b| diverges(&b.body))\n            }\n            _ => false,")
+m("diverges-any-branch", ["C02"], ["VALUE-PATH|diverges|expression|If"], TC,
+  "                    && branches.iter().all(|b| diverges(&b.body))\n            }\n            Expression::Case",
+  "                    && branches.iter().any(|b| diverges(&b.body))\n            }\n            Expression::Case")
+m("diverges-definition-counts", ["C02"], ["VALUE-PATH|diverges|statement|Definition"], TC,
+  "        Some(Statement::Block { statements, .. }) => diverges(statements),",
+  "        Some(Statement::Block { statements, .. }) => diverges(statements),\n        Some(Statement::Definition { .. }) => true,")
+m("twin-diverges-extra-condition", ["C02"], "silent", TC,
+  "        Some(Statement::Block { statements, .. }) => diverges(statements),",
+  "        Some(Statement::Block { statements, .. }) => !statements.is_empty() && diverges(statements),")
+m("set-map-takes-any-callback", ["C04", "C18"], ["PURITY-DECL|set.set_map|callbacks-of-a-pu-external-are-pu"], SET,
+  "set_map : pu<VA: CmpEqu, VB: CmpEqu> Set(*VA), (pu *VA -> *VB)", "set_map : pu<VA: CmpEqu, VB: CmpEqu> Set(*VA), (fn *VA -> *VB)")
+m("list-find-no-early-return", ["C18"], ["SEARCH|list.list_find|stops-at-the-first-match"], PRE,
+  "function list_find(l, p)\n    for _, x in pairs(l) do\n        if p(x) then\n            return __VARIANT({\"Just\", x})\n        end\n    end\n    return __VARIANT({\"None\", __NIL})",
+  "function list_find(l, p)\n    local r = __VARIANT({\"None\", __NIL})\n    for _, x in pairs(l) do\n        if p(x) then\n            r = __VARIANT({\"Just\", x})\n        end\n    end\n    return r")
+m("dict-update-in-place", ["C18"], ["VALUE-SEM|dict_update|store#1"], PRE,
+  "function dict_update(dict, k, v)\n    dict[tostring(k)] = __TUPLE {k, v}\nend",
+  "function dict_update(dict, k, v)\n    local e = dict[tostring(k)]\n    if e then e[2] = v else dict[tostring(k)] = __TUPLE {k, v} end\nend")
+m("unreachable-message-names-file", ["C06"], ["LEX-SAFE|HaltAndCatchFire|message-made-of-fixed-text-and-numbers#1"], IR,
+  "                vec![IR::HaltAndCatchFire(format!(\n                    \"Reached unreachable code on line {}\",\n                    span.line_start\n                ))]",
+  "                vec![IR::HaltAndCatchFire(format!(\n                    \"Reached unreachable code on line {} ({:?})\",\n                    span.line_start, self.typechecker.file_to_namespace.keys().next()\n                ))]")
+m("arrow-guarded-arm", ["C14"], ["ARROW|parser|call-takes-the-value-first"], PEX,
+  "            Get(Assignable { kind: Call(callee, args), .. }) => Get(Assignable {\n                kind: ArrowCall(Box::new(lhs), callee, args),",
+  "            Get(Assignable { kind: Call(callee, args), .. }) if !args.is_empty() => Get(Assignable {\n                kind: ArrowCall(Box::new(lhs), callee, args),")
+m("register-types-first", ["C15"], ["DUP-ORDER|Resolver::insert_namespace_and_add_definitions|loop#1"], NR,
+  "        let mut namespace = HashMap::new();\n        let mut errs = Vec::new();\n        for stmt in statements.iter() {",
+  "        let mut namespace = HashMap::new();\n        let mut errs = Vec::new();\n        let mut statements: Vec<_> = statements.iter().collect();\n        statements.sort_by_key(|s| !matches!(s.kind, sylt_parser::StatementKind::Blob { .. }));\n        for stmt in statements.into_iter() {")
+m("qualified-type-through-lookup", ["C12"], ["ISOLATION|ty_assignable|namespace-member-from-that-namespace-only"], NR,
+  "                match self.lookup_global(new_namespace, &ty.name) {\n                    Some(Name::Name(r)) => Type::UserType(*r, Vec::new(), span),",
+  "                match self.lookup(&ty.name, ty.span).ok().map(Name::Name).as_ref().or(self.lookup_global(new_namespace, &ty.name)) {\n                    Some(Name::Name(r)) => Type::UserType(*r, Vec::new(), span),")
+m("unknown-callee-only-outside-pure", ["C08", "C11", "C12"], ["INFERENCE|TypeChecker::expression|catch-all=>error#1"], TC,
+  "                if matches!(self.find_type(function), Type::Unknown) {\n                    let params",
+  "                if matches!(self.find_type(function), Type::Unknown) && !ctx.inside_pure {\n                    let params")
+m("quotient-back-constraint-dropped", ["C02"], ["VALUE-PATH|expression|Div|quotient-follows-dividend"], TC,
+  "                self.add_constraint(a, span, Constraint::DivResOf(b));\n                Ok(())", "                Ok(())")
+m("external-purity-only-for-constants", ["C04"], ["PURITY-UNIFY|outer_statement|external-fn-is-impure"], TC,
+  "                if let Type::Function(args, ret, Purity::Undefined) = self.find_type(ty) {\n                    self.find_node_mut(ty).ty = Type::Function(args, ret, Purity::Impure);",
+  "                if let (true, Type::Function(args, ret, Purity::Undefined)) =\n                    (self.variables[*var].kind.immutable(), self.find_type(ty))\n                {\n                    self.find_node_mut(ty).ty = Type::Function(args, ret, Purity::Impure);")
+
 for w in W:
     with open(os.path.join(OUT, w["name"] + ".json"), "w") as fh:
         json.dump(w, fh, indent=1)
